@@ -1358,7 +1358,7 @@ def shrink(ctx, rep, inputs, transform, rounds, tagbase):
     return hist
 
 
-def report(ctx, cases, results, fails, slices, per_group=2, rounds=12):
+def report(ctx, cases, results, fails, slices, per_group=2, rounds=12, budget=90, base=()):
     """Violations with a normal-form key  slice:signature:tags(shrunk program).  Failures are grouped by
     (slice, signature); up to per_group members with different tags are shrunk (fast, gfortran only), the shrunk
     programs are then re-judged by TLC in one batch; the key uses the smallest confirmed program."""
@@ -1381,8 +1381,22 @@ def report(ctx, cases, results, fails, slices, per_group=2, rounds=12):
             if len(seen) >= per_group:
                 break
     confirm = []
-    for ri, r in enumerate(reps):
+    import time
+    t0 = time.time()
+    # failures of the base slices (unexpected ones) are shrunk first; the wall-clock budget bounds the rest
+    order = sorted(range(len(reps)), key=lambda i: (reps[i]['label'] not in base, i))
+    shrunk = 0
+    for ri in order:
+        r = reps[ri]
+        left = budget - (time.time() - t0)
+        if left <= 5:
+            r['hist'] = [r['small']]
+            continue
+        r['budget'] = min(left, budget / 3)
         r['hist'] = shrink(ctx, r, cases[r['idx']][1], transform, rounds, f'shr{ri}')
+        shrunk += 1
+    ctx.cover['shrunk_representatives'] = f'{shrunk} of {len(reps)}'
+    for ri, r in enumerate(reps):
         for h in r['hist'][1:]:
             confirm.append((ri, h))
     if confirm:
@@ -1439,7 +1453,9 @@ def run_slices(ctx, slices, total, assumptions):
             else:
                 st['ok'] += 1
     ctx.cover['slices'] = per
-    report(ctx, cases, results, fails, slices, per_group=2 if ctx.quick else 3, rounds=10 if ctx.quick else 16)
+    report(ctx, cases, results, fails, slices, per_group=1 if ctx.quick else 2, rounds=8 if ctx.quick else 16,
+           budget=int(os.environ.get('VERIF_SHRINK_BUDGET', 90 if ctx.quick else 420)),
+           base=[k for k in slices if '-' not in k or k.startswith('xform')])
     seen = set()
     for r in results:
         label = cases[r['idx']][0]['slice']
